@@ -74,8 +74,7 @@ class Run:
                                                         "str": str, "int": int, "repr": repr, "ord": ord,
                                                         "set": set, "sorted": sorted, "tuple": tuple, "list": list,
                                                         "min": min, "max": max, "dict": dict, "bool": bool,
-                                                        "type": type, "range": range}},
-                                {"w": witness}):
+                                                        "type": type, "range": range}, "w": witness}):
                         continue
                 except (NameError, SyntaxError) as e:
                     raise MachineryDefect("known-finding predicate of %s is broken: %r" % (k.get("id"), e))
